@@ -22,7 +22,7 @@ if _m:
     demo = _m.group(1).strip()
     demo = re.split(r"\s{2,}|\s\(", demo)[0].strip()
 if "./server/" in demo and "server/commitlog" not in demo and "server/protocol" not in demo and "server/encryption" not in demo:
-    demo = "flock -w 900 /tmp/liftbridge-server-tests.lock " + demo
+    demo = "unshare -n sh -c 'ip link set lo up && %s'" % demo.replace("'", '"')
 res = {"mutant": name, "property": prop, "summary": meta.get("summary"), "needs": meta.get("needs"), "demo": demo}
 # place demo files
 m = re.search(r"(\./[\w/\.]+)\s*/?\s*$", demo.strip()) or re.search(r"(\./server[\w/]*)", demo)
